@@ -403,6 +403,15 @@ func genTyp(r *Rng, o genTypeOpts) jsonapi.Type {
 	if t.Rels == nil {
 		t.Rels = map[string]jsonapi.Rel{}
 	}
+	// a two-way pair within the type itself (parent / children): two of its relationships
+	// that are each other's inverse
+	if ks := sortedKeys(t.Rels); len(ks) >= 2 && r.chance(1, 4) && !strings.Contains(ks[0], ",") && !strings.Contains(ks[1], ",") {
+		a, b := t.Rels[ks[0]], t.Rels[ks[1]]
+		a.ToType, a.ToName, a.FromType = o.name, b.FromName, o.name
+		b.ToType, b.ToName, b.FromType = o.name, a.FromName, o.name
+		b.ToOne, b.FromOne = a.FromOne, a.ToOne
+		t.Rels[ks[0]], t.Rels[ks[1]] = a, b
+	}
 	return t
 }
 
@@ -472,8 +481,9 @@ func structTypeFor(typ jsonapi.Type) reflect.Type {
 	// decoy: a field of the same Go type carrying the same json tag but no api tag, declared
 	// just before the real one (plain data of the user's struct, e.g. kept for another
 	// encoder): it is no field of the resource and nothing may read or write it
-	decoy := func(name string, ft reflect.Type) {
-		if (len(name)+n)%4 == 2 {
+	decoy := func(name string, ft reflect.Type, before bool) {
+		// declared just before the real field, or (every other decoy) just after it
+		if (len(name)+n)%4 == 2 && before == ((len(name)+n)%16 < 8) {
 			if (len(name)+n)%8 == 6 {
 				// ... or of another Go type (e.g. an amount in cents next to its decimal text)
 				if ft.Kind() == reflect.Int64 {
@@ -491,11 +501,12 @@ func structTypeFor(typ jsonapi.Type) reflect.Type {
 	for _, k := range sortedKeys(typ.Attrs) {
 		a := typ.Attrs[k]
 		n++
-		decoy(a.Name, goTypeOf(a.Type, a.Nullable))
+		decoy(a.Name, goTypeOf(a.Type, a.Nullable), true)
 		fields = append(fields, reflect.StructField{
 			Name: fmt.Sprintf("F%d", n), Type: goTypeOf(a.Type, a.Nullable),
 			Tag: reflect.StructTag(fmt.Sprintf(`json:"%s" api:"attr"`, a.Name)),
 		})
+		decoy(a.Name, goTypeOf(a.Type, a.Nullable), false)
 	}
 	for _, k := range sortedKeys(typ.Rels) {
 		rel := typ.Rels[k]
@@ -508,11 +519,12 @@ func structTypeFor(typ jsonapi.Type) reflect.Type {
 		if rel.ToName != "" {
 			tag += "," + rel.ToName
 		}
-		decoy(rel.FromName, ft)
+		decoy(rel.FromName, ft, true)
 		fields = append(fields, reflect.StructField{
 			Name: fmt.Sprintf("F%d", n), Type: ft,
 			Tag: reflect.StructTag(fmt.Sprintf(`json:"%s" api:"%s"`, rel.FromName, tag)),
 		})
+		decoy(rel.FromName, ft, false)
 	}
 	return reflect.StructOf(fields)
 }
@@ -584,6 +596,28 @@ func newSoftVia(r *Rng, typ jsonapi.Type, o *Out) *jsonapi.SoftResource {
 	default:
 		return newSoft(typ)
 	}
+}
+
+// newSoftShrunk: a soft resource that got all its values while its type still had one more
+// attribute and one more relationship, and then lost those two fields (RemoveField, or
+// SetType to the smaller type): what it holds for the remaining fields is what was set.
+func newSoftShrunk(r *Rng, typ jsonapi.Type, id string, vals map[string]any, o *Out) *jsonapi.SoftResource {
+	big := typ.Copy()
+	big.Attrs["gone~a"] = jsonapi.Attr{Name: "gone~a", Type: jsonapi.AttrTypeString}
+	big.Rels["gone~r"] = jsonapi.Rel{FromType: typ.Name, FromName: "gone~r", ToOne: false, ToType: typ.Name}
+	sr := &jsonapi.SoftResource{Type: &big}
+	fill(sr, id, vals)
+	sr.Set("gone~a", "x")
+	sr.Set("gone~r", []string{"y"})
+	if r.bool() {
+		sr.RemoveField("gone~a")
+		sr.RemoveField("gone~r")
+	} else {
+		t := typ.Copy()
+		sr.SetType(&t)
+	}
+	o.stat("soft.shrunk")
+	return sr
 }
 
 func newWrapped(typ jsonapi.Type) *jsonapi.Wrapper {
